@@ -328,6 +328,13 @@ func elemRead(v ssa.Value) (x, idx ssa.Value, ok bool) {
 		return e.X, e.Index, true
 	case *ssa.Lookup:
 		return e.X, e.Index, true
+	case *ssa.UnOp:
+		// a slice element: *(&x[i])
+		if e.Op == token.MUL {
+			if ia, ok := e.X.(*ssa.IndexAddr); ok {
+				return ia.X, ia.Index, true
+			}
+		}
 	}
 	return nil, nil, false
 }
